@@ -795,6 +795,66 @@ def r38(ctx, methods):
         raise AnalysisError("R-3.8: no path-number membership test could be typed")
 
 
+def r311(ctx):
+    """One engine *object* per bookable slot. The booking table `engine_occ[name]` hands out slot
+    indices; exclusion of engine instances follows only if the slots of `engines[name]` are
+    distinct objects: every element of the list comes from its own `create_engine(...)` call
+    (an append inside the per-slot loop, or a comprehension) - never a replicated list
+    `[obj] * n`, which stores one object n times."""
+    rid = "R-3.11"
+    tree = ctx.tree
+    f = tree.func(FACTORY, "create_engines")
+    fl = flow_of(f)
+    rets = [r for r in walk_local(f) if isinstance(r, ast.Return) and isinstance(r.value, ast.Tuple) and r.value.elts]
+    if not rets or not isinstance(rets[0].value.elts[0], ast.Name):
+        raise AnalysisError("R-3.11: create_engines does not return (engines, engine_occ)")
+    eng = rets[0].value.elts[0].id
+
+    def creates(e):
+        return isinstance(e, ast.Call) and last_name(e) in ("create_engine",)
+
+    def replicated(e, at, depth=0):
+        """`[x] * n` / `n * [x]` whose element is (or derives from) an engine object"""
+        if isinstance(e, ast.BinOp) and isinstance(e.op, ast.Mult):
+            for side in (e.left, e.right):
+                if isinstance(side, (ast.List, ast.Tuple)) and side.elts:
+                    return True
+        if isinstance(e, ast.Name) and depth < 3:
+            return any(kind == "expr" and replicated(node, sat, depth + 1) for kind, node, sat, _ in fl.sources(e, at))
+        return False
+
+    n = 0
+    for st in walk_local(f):
+        # engines[k].append(X)
+        if isinstance(st, ast.Call) and isinstance(st.func, ast.Attribute) and st.func.attr in ("append", "extend", "insert") and isinstance(st.func.value, ast.Subscript) and path_of(st.func.value.value) == eng and st.args:
+            n += 1
+            a = st.args[-1]
+            at = fl.cfg.node_of(st)
+            srcs = fl.sources(a, at)
+            direct = srcs and all(kind == "expr" and creates(node) for kind, node, sat, _ in srcs)
+            in_loop = bool(loops_of(st))
+            # the creating call must lie in the same (innermost) loop as the append: one object per iteration
+            same_iter = direct and all(loops_of(node)[:1] == loops_of(st)[:1] for kind, node, sat, _ in srcs)
+            if st.func.attr == "append" and direct and in_loop and same_iter:
+                ctx.ok(rid, st, "each slot of the engine list receives the result of its own create_engine() call (one per loop iteration)")
+            else:
+                ctx.bad(rid, st, "the engine list does not receive one newly created engine per slot: booked slot indices differ but the slots hold the same engine object, so two in-flight jobs share an engine instance (worker directory, random stream)", construct=short(st, 80))
+        if isinstance(st, ast.Assign) and any(isinstance(t, ast.Subscript) and path_of(t.value) == eng for t in st.targets):
+            v = st.value
+            at = fl.cfg.node_of(st)
+            if isinstance(v, (ast.List,)) and not v.elts:
+                continue  # empty list, filled by appends
+            n += 1
+            if isinstance(v, ast.ListComp) and creates(v.elt):
+                ctx.ok(rid, st, "the engine list is a comprehension with one create_engine() call per slot")
+            elif replicated(v, at):
+                ctx.bad(rid, st, "the engine list is built by list replication (`[engine] * n`): every slot refers to ONE engine object; the booking table hands out different slot indices, yet two in-flight jobs use the same engine instance (its worker directory and random stream are re-pointed by the second job)", construct=short(st, 80))
+            else:
+                ctx.bad(rid, st, "the engine list of a type is not built from one create_engine() call per slot", construct=short(st, 80))
+    if n == 0:
+        raise AnalysisError("R-3.11: no store into the engine table found in create_engines")
+
+
 def run(ctx):
     ctx.rule("R-3.8", "busy-path membership tests compare path numbers in the same representation (int vs their str form in the in-flight record)", floor=3)
     ctx.rule("R-3.10", "membership tests against the busy paths consult the whole result of locked_paths() (no slice / filter)", floor=2)
@@ -812,6 +872,8 @@ def run(ctx):
     ctx.attempt(r35, ctx, rel_funcs, methods)
     ctx.attempt(r36, ctx)
     ctx.attempt(r37, ctx, methods)
+    ctx.rule("R-3.11", "one engine object per bookable slot: each element of engines[name] comes from its own create_engine() call (no list replication)", floor=1)
+    ctx.attempt(r311, ctx)
     from .shared import stale_loop_variable, whole_busy_set
     ctx.attempt(whole_busy_set, ctx, "R-3.10", " and can be swapped out of its busy ensemble by the re-sort / credited weight while in flight")
     ctx.attempt(stale_loop_variable, ctx, "R-3.9", [REPEX, FACTORY, SCHED], None, " (the wrong ensemble / engine slot is marked or booked)")
@@ -819,6 +881,10 @@ def run(ctx):
 
 
 VARIANTS = [
+    B("c03-engine-list-replicated", FACTORY, "        for i in range(n_create):\n            check_engine(config, eng_key=engine)\n            engine_occ[engine].append(-1)\n            engines[engine].append(create_engine(config, eng_key=engine))", "        check_engine(config, eng_key=engine)\n        engine_occ[engine] = [-1] * n_create\n        engines[engine] = [create_engine(config, eng_key=engine)] * n_create", "R-3.11", control=True, why="seeded C03_f"),
+    B("c03-engine-created-once-appended-many", FACTORY, "        for i in range(n_create):\n            check_engine(config, eng_key=engine)\n            engine_occ[engine].append(-1)\n            engines[engine].append(create_engine(config, eng_key=engine))", "        one = create_engine(config, eng_key=engine)\n        for i in range(n_create):\n            check_engine(config, eng_key=engine)\n            engine_occ[engine].append(-1)\n            engines[engine].append(one)", "R-3.11"),
+    K("c03-keep-engine-list-comprehension", FACTORY, "        for i in range(n_create):\n            check_engine(config, eng_key=engine)\n            engine_occ[engine].append(-1)\n            engines[engine].append(create_engine(config, eng_key=engine))", "        check_engine(config, eng_key=engine)\n        engine_occ[engine] = [-1] * n_create\n        engines[engine] = [create_engine(config, eng_key=engine) for _ in range(n_create)]"),
+    K("c03-keep-engine-temp", FACTORY, "            engines[engine].append(create_engine(config, eng_key=engine))", "            new_engine = create_engine(config, eng_key=engine)\n            engines[engine].append(new_engine)"),
     B("c03-sort-drops-last-busy-path", REPEX, "            locks = self.locked_paths()\n            zero_idx", "            locks = self.locked_paths()[:-1]\n            zero_idx", "R-3.10", control=True, why="seeded C03_d"),
     K("c03-keep-busy-set-as-set", REPEX, "            locks = self.locked_paths()\n            zero_idx", "            busy = self.locked_paths()\n            locks = busy\n            zero_idx"),
     B("c03-stale-engine-key", FACTORY, "    for eng_key in eng_names:\n        for i, occupied_by in enumerate(engine_occ[eng_key]):\n            if occupied_by == -1:\n                engine_occ[eng_key][i] = pin\n                out[eng_key] = i", "    for eng_name in eng_names:\n        for i, occupied_by in enumerate(engine_occ[eng_name]):\n            if occupied_by == -1:\n                engine_occ[eng_key][i] = pin\n                out[eng_name] = i", "R-3.9", control=True, why="seeded C03_c (also R-3.6)"),
